@@ -238,23 +238,23 @@ pub fn repo_hex_vectors() -> Vec<Vec<u8>> {
 // Reference encoder: an independent, deliberately naive serializer of in-memory transactions written against the
 // consensus format (not calling any of the crate's Encodable impls), so that an encoder regression in the crate cannot
 // hide behind inputs that were produced by that same encoder.
-fn ref_varint(out: &mut Vec<u8>, n: u64) {
+pub fn ref_varint(out: &mut Vec<u8>, n: u64) {
     if n < 0xfd { out.push(n as u8); }
     else if n <= 0xffff { out.push(0xfd); out.extend_from_slice(&(n as u16).to_le_bytes()); }
     else if n <= 0xffff_ffff { out.push(0xfe); out.extend_from_slice(&(n as u32).to_le_bytes()); }
     else { out.push(0xff); out.extend_from_slice(&n.to_le_bytes()); }
 }
-fn ref_bytes(out: &mut Vec<u8>, b: &[u8]) { ref_varint(out, b.len() as u64); out.extend_from_slice(b); }
-fn ref_value(out: &mut Vec<u8>, v: &Value) {
+pub fn ref_bytes(out: &mut Vec<u8>, b: &[u8]) { ref_varint(out, b.len() as u64); out.extend_from_slice(b); }
+pub fn ref_value(out: &mut Vec<u8>, v: &Value) {
     match v { Value::Null => out.push(0), Value::Explicit(n) => { out.push(1); out.extend_from_slice(&n.to_be_bytes()); } Value::Confidential(c) => out.extend_from_slice(&c.serialize()) }
 }
-fn ref_asset(out: &mut Vec<u8>, v: &Asset) {
+pub fn ref_asset(out: &mut Vec<u8>, v: &Asset) {
     match v { Asset::Null => out.push(0), Asset::Explicit(a) => { out.push(1); out.extend_from_slice(&a.to_byte_array()); } Asset::Confidential(g) => out.extend_from_slice(&g.serialize()) }
 }
-fn ref_nonce(out: &mut Vec<u8>, v: &Nonce) {
+pub fn ref_nonce(out: &mut Vec<u8>, v: &Nonce) {
     match v { Nonce::Null => out.push(0), Nonce::Explicit(b) => { out.push(1); out.extend_from_slice(&b[..]); } Nonce::Confidential(k) => out.extend_from_slice(&k.serialize()) }
 }
-fn ref_stack(out: &mut Vec<u8>, s: &[Vec<u8>]) { ref_varint(out, s.len() as u64); for e in s { ref_bytes(out, e); } }
+pub fn ref_stack(out: &mut Vec<u8>, s: &[Vec<u8>]) { ref_varint(out, s.len() as u64); for e in s { ref_bytes(out, e); } }
 pub fn ref_txin(out: &mut Vec<u8>, i: &TxIn) {
     let has_issuance = !(i.asset_issuance.amount.is_null() && i.asset_issuance.inflation_keys.is_null());
     let mut vout = i.previous_output.vout;
@@ -307,4 +307,37 @@ pub fn tx_is_canonical(tx: &Transaction) -> bool {
         let v = i.previous_output.vout;
         (v < (1 << 30) && !(v == 0x3fff_ffff && i.is_pegin && has_issuance)) || (v == 0xffff_ffff && !i.is_pegin && !has_issuance)
     })
+}
+
+// ---- reference encoders for dynafed parameters, block headers and blocks (written from the Elements wire format, independent of the crate's encoder) ----
+pub fn ref_params(out: &mut Vec<u8>, p: &elements::dynafed::Params) {
+    use elements::dynafed::Params;
+    match p {
+        Params::Null => out.push(0),
+        Params::Compact { signblockscript, signblock_witness_limit, elided_root } => {
+            out.push(1); ref_bytes(out, signblockscript.as_bytes()); out.extend_from_slice(&signblock_witness_limit.to_le_bytes()); out.extend_from_slice(&elided_root.to_byte_array());
+        }
+        Params::Full(_) => {
+            out.push(2); ref_bytes(out, p.signblockscript().unwrap().as_bytes()); out.extend_from_slice(&p.signblock_witness_limit().unwrap().to_le_bytes());
+            ref_bytes(out, p.fedpeg_program().unwrap().as_bytes()); ref_bytes(out, p.fedpegscript().unwrap()); ref_stack(out, p.extension_space().unwrap());
+        }
+    }
+}
+pub fn ref_params_vec(p: &elements::dynafed::Params) -> Vec<u8> { let mut o = Vec::new(); ref_params(&mut o, p); o }
+/// `with_witness = false`: the block-hash pre-image (no solution / no signblock witness)
+pub fn ref_header(out: &mut Vec<u8>, h: &elements::BlockHeader, with_witness: bool) {
+    let dyna = matches!(h.ext, elements::BlockExtData::Dynafed { .. });
+    out.extend_from_slice(&(if dyna { h.version | 0x8000_0000 } else { h.version }).to_le_bytes());
+    out.extend_from_slice(&h.prev_blockhash.to_byte_array()); out.extend_from_slice(&h.merkle_root.to_byte_array());
+    out.extend_from_slice(&h.time.to_le_bytes()); out.extend_from_slice(&h.height.to_le_bytes());
+    match &h.ext {
+        elements::BlockExtData::Proof { challenge, solution } => { ref_bytes(out, challenge.as_bytes()); if with_witness { ref_bytes(out, solution.as_bytes()); } }
+        elements::BlockExtData::Dynafed { current, proposed, signblock_witness } => { ref_params(out, current); ref_params(out, proposed); if with_witness { ref_stack(out, signblock_witness); } }
+    }
+}
+pub fn ref_header_vec(h: &elements::BlockHeader) -> Vec<u8> { let mut o = Vec::new(); ref_header(&mut o, h, true); o }
+pub fn ref_block(b: &elements::Block) -> Vec<u8> {
+    let mut o = Vec::new(); ref_header(&mut o, &b.header, true); ref_varint(&mut o, b.txdata.len() as u64);
+    for t in &b.txdata { o.extend_from_slice(&ref_tx(t)); }
+    o
 }
